@@ -79,8 +79,106 @@ class TU:
         self.fid_alias = {}
         self.collapsed = []
         self.inlined = []
+        self._adopt_explicit_self_helpers()
         self._collapse_forwarders()
         self._inline_lock_closures()
+
+    # ---- `static void step(Self & self, ...)` in a nested struct / as a static member ---------------------------------------------
+    def _adopt_explicit_self_helpers(self):
+        """A static member function of a library class C or of a class nested in C (`struct Impl { static void link(C & self, ...); }`)
+        that every call site in the library calls from a member function of C with `*this` for one reference parameter is a member
+        function of C written with an explicit object: that parameter becomes `this`, the function takes C's scope and the calls become
+        member calls. (Helpers that are the *whole body* of a member are handled by the forwarder collapse; this covers partial steps.)"""
+        if os.environ.get('EPP_NO_ADOPT'):
+            return
+        from .paths import path as _path
+        callers = self.callers()
+        for g in list(self.fns):
+            if g.kind != 'method' or not g.d.get('static') or g.body is None or not g.params or '/include/eventpp/' not in (g.file or ''):
+                continue
+            cs = callers.get(g.id, [])
+            if not cs:
+                continue
+            hit = None
+            for i, gp in enumerate(g.params):
+                if gp.get('pass') != 'lref':
+                    continue
+                ok = True
+                owner = None
+                for (f, n) in cs:
+                    o = f.outermost()
+                    a = [x for x in f.nodes[n].get('args', []) if f.nodes[x]['cls'] != 'CXXDefaultArgExpr']
+                    if f.nodes[n]['cls'] != 'CallExpr' or o.kind not in ('method', 'operator', 'ctor', 'dtor') or o.d.get('static') or i >= len(a):
+                        ok = False
+                        break
+                    v = f.strip_all_casts(a[i])
+                    vo = f.nodes[v]
+                    if not (vo['cls'] == 'UnaryOperator' and vo.get('op') == '*' and f.nodes[f.strip(f.kids(v)[0])]['cls'] == 'CXXThisExpr'):
+                        ok = False
+                        break
+                    if not (g.cls == o.cls or g.cls.startswith(o.cls + '::')) or owner not in (None, (o.cls, o.clsq)):
+                        ok = False
+                        break
+                    owner = (o.cls, o.clsq)
+                if ok and owner:
+                    hit = (i, gp, owner)
+                    break
+            if hit is None:
+                continue
+            i, gp, (ocls, oclsq) = hit
+            for nn, oo in g.nodes.items():
+                if oo['cls'] == 'DeclRefExpr':
+                    dd = g.decl(nn)
+                    if dd and dd.get('kind') == 'parm' and dd.get('id') == gp['id']:
+                        oo['cls'] = 'CXXThisExpr'
+                        oo['was_self'] = True
+            for h in self.fns:
+                x = h
+                while x is not None and x is not g:
+                    x = self.by_id.get(x.parent_id) if x.parent_id is not None else None
+                if x is g and h is not g:
+                    for nn, oo in h.nodes.items():
+                        if oo['cls'] == 'DeclRefExpr':
+                            dd = h.decl(nn)
+                            if dd and dd.get('kind') == 'parm' and dd.get('id') == gp['id']:
+                                oo['cls'] = 'CXXThisExpr'
+                                oo['was_self'] = True
+            self.by_key[g.skey] = [x for x in self.by_key[g.skey] if x is not g]
+            old_skey = g.skey
+            g.helper_skey = old_skey
+            g.cls, g.clsq = ocls, oclsq
+            prefix = g.key[:len(g.key) - len(old_skey)] if g.key.endswith(old_skey) else ''
+            g.skey = ocls + '::' + g.name
+            g.key = prefix + g.skey
+            g.access = 'private'
+            g.d = dict(g.d, static=False)
+            g.params = [pp for pp in g.params if pp['id'] != gp['id']]
+            self.by_key[g.skey].append(g)
+            # the calls: `Impl::step(*this, a, b)` -> `this->step(a, b)`; the callee record loses the parameter
+            fixed_decl = set()
+            for (f, n) in cs:
+                o = f.nodes[n]
+                a = list(o.get('args', []))
+                v = f.strip_all_casts(a[i])
+                o['obj'] = f.strip(f.kids(v)[0])
+                o['args'] = a[:i] + a[i + 1:]
+                o['cls'] = 'CXXMemberCallExpr'
+                ci = o.get('c')
+                if ci is not None and ci >= 0 and ci not in fixed_decl:
+                    fixed_decl.add(ci)
+                    d = self.decls[ci]
+                    if isinstance(d.get('params'), list) and len(d['params']) > i:
+                        d['params'] = d['params'][:i] + d['params'][i + 1:]
+                    d['method'] = True
+                    d['static'] = False
+                    d['cls'] = (d.get('cls', '')[:len(d.get('cls', '')) - len(short(d.get('cls', '')))] if d.get('cls') else '') + ocls
+                    if d.get('key', '').endswith(old_skey):
+                        d['key'] = d['key'][:len(d['key']) - len(old_skey)] + g.skey
+                for attr in ('_parent', '_pos', '_preds', '_dom', '_pdom', '_reach', '_decl_of_var'):
+                    setattr(f, attr, None)
+            self.collapsed.append((g.skey, old_skey, 'explicit-self helper adopted'))
+            self._callers = None
+            callers = self.callers()
 
     # ---- `withLock(mutex, [&]{ ... })` ----------------------------------------------------------------------------------------
     def _lock_runner_shape(self, h):
@@ -536,9 +634,10 @@ class TU:
 
     def counter_guard_classes(self):
         """Classes that behave like eventpp::internal_::CounterGuard, whatever they are called and wherever they are declared (a local
-        struct of the function that uses it included): every user-written constructor takes the counter by reference, binds a reference
-        member to it and increments that member exactly once on every path; the destructor decrements the same member exactly once; no
-        other member function writes it. {short class key: member name}."""
+        struct of the function that uses it included): every user-written constructor takes one parameter - the counter by reference, or
+        a reference / pointer to the object that holds it -, keeps it in a reference / pointer member and increments the counter reached
+        through it exactly once on every path; the destructor decrements the same counter through that member exactly once; no other
+        member function writes it. {short class key: (member name, path from the constructor argument to the counter)}."""
         if getattr(self, '_cgc', None) is not None:
             return self._cgc
         from .effects import writes
@@ -552,40 +651,52 @@ class TU:
         for cls, fs in by_cls.items():
             ctors = [f for f in fs if f.kind == 'ctor']
             dtors = [f for f in fs if f.kind == 'dtor']
-            if not ctors or not dtors:
+            if not ctors or not dtors or cls.startswith('std::'):
                 continue
             member = None
+            suffix = None
             ok = True
             for f in ctors:
                 ws = [w for w in writes(f) if w['how'] in ('++', '--', 'assign', '+=', '-=') or w['how'].startswith('call:')]
-                if len(f.params) != 1 or f.params[0].get('pass') != 'lref' or len(ws) != 1 or ws[0]['how'] != '++' or len(ws[0]['path']) != 2 \
-                        or ws[0]['path'][0] != 'this' or not f.pos_postdominates(ws[0]['pos'], (f.entry, 0)):
+                if len(f.params) != 1 or len(ws) != 1 or ws[0]['how'] != '++' or not f.pos_postdominates(ws[0]['pos'], (f.entry, 0)):
                     ok = False
                     break
-                m = ws[0]['path'][1][1:]
-                inits = [i for i in f.d.get('inits', []) if i.get('member') == m]
-                t = self.type(inits[0].get('t')) if inits else None
-                n = inits[0].get('n') if inits else None
-                if not (t and t['ref'] == 1 and n and path(f, n) and path(f, n)[0].startswith('v:') and len(path(f, n)) == 1):
+                wp = ws[0]['path']
+                pv = 'v:%s#%d' % (f.params[0]['name'], f.params[0]['id'])
+                from_param = [i_ for i_ in f.d.get('inits', []) if i_.get('member') and i_.get('n') and path(f, i_['n']) == (pv,)]
+                if wp[0] == 'this' and len(wp) >= 2 and wp[1].startswith('.'):
+                    m, suf = wp[1][1:], tuple(wp[2:])
+                elif wp[0] == pv and len(from_param) == 1:
+                    m, suf = from_param[0]['member'], tuple(wp[1:])
+                else:
                     ok = False
                     break
-                if member not in (None, m):
+                ini = [i_ for i_ in from_param if i_.get('member') == m]
+                t = self.type(ini[0].get('t')) if ini else None
+                if not (t and (t.get('ref') == 1 or t.get('ptr'))) or member not in (None, m) or suffix not in (None, suf):
                     ok = False
                     break
-                member = m
+                member, suffix = m, suf
             if not ok or member is None:
                 continue
             for f in dtors:
                 ws = [w for w in writes(f) if w['how'] in ('++', '--', 'assign', '+=', '-=') or w['how'].startswith('call:')]
-                if len(ws) != 1 or ws[0]['how'] != '--' or ws[0]['path'] != ('this', '.' + member) or not f.pos_postdominates(ws[0]['pos'], (f.entry, 0)):
+                if len(ws) != 1 or ws[0]['how'] != '--' or tuple(ws[0]['path']) != ('this', '.' + member) + suffix or not f.pos_postdominates(ws[0]['pos'], (f.entry, 0)):
                     ok = False
             for f in fs:
                 if f.kind == 'method' and any(w['path'][:2] == ('this', '.' + member) for w in writes(f)):
                     ok = False
             if ok:
-                res[cls] = member
+                res[cls] = (member, suffix)
         self._cgc = res
         return res
+
+    def guard_counter_path(self, cls, argpath):
+        """Path of the counter a guard object of class `cls` constructed from an argument with path `argpath` keeps raised."""
+        suf = self.counter_guard_classes().get(cls, (None, ()))[1]
+        if tuple(argpath) == ('this',) and suf[:1] == ('*',):
+            suf = suf[1:]
+        return tuple(argpath) + tuple(suf)
 
     def type(self, idx):
         return self.types[idx] if idx is not None and idx >= 0 else None
